@@ -96,7 +96,50 @@ Proof.
   repeat split. apply FenProofs.play_moves_history in P. destruct P as (ps & P1 & P2 & P3). exists ps. auto.
 Qed.
 
+(* ------------------------------------------------------------------ whole sessions *)
+From JV Require Import Props.C13.
+(* along the lines a session executes (uci_exec: each with the state it is executed in), position and recorded history change only across the four
+   commands meant to change them: whatever the input and its timing, every other executed line hands the next one the same position and history *)
+Definition changes_game (line : string) : bool :=
+  let cmd := lower_str (first_token (trim line)) in
+  String.eqb cmd "position" || String.eqb cmd "move" || String.eqb cmd "ucinewgame" || String.eqb cmd "cleartt".
+Fixpoint frame_chain (l : list (ustate * string)) : Prop :=
+  match l with
+  | (u1, l1) :: r =>
+    match r with
+    | (u2, _) :: _ => (changes_game l1 = false -> u_game u2 = u_game u1 /\ u_rep u2 = u_rep u1) /\ frame_chain r
+    | [] => True
+    end
+  | [] => True
+  end.
+
+Lemma uci_exec_head extra dls fuel u pending input :
+  match uci_exec extra dls fuel u pending input with (u0, _) :: _ => u0 = u | [] => True end.
+Proof.
+  destruct fuel as [|f]; [exact I|]. cbn [uci_exec].
+  destruct (match pending with Some l => Some (l, input) | None => match input with [] => None | (_, l) :: r => Some (l, r) end end) as [[l input']|]; [|exact I].
+  destruct (uci_step extra (List.hd O dls) u l input') as [[[[u' outs] rq] input''] st]. reflexivity.
+Qed.
+
+Theorem C17_whole_sessions_change_the_game_only_at_the_four_commands : forall extra dls fuel u pending input,
+  frame_chain (uci_exec extra dls fuel u pending input).
+Proof.
+  intros extra dls fuel. revert dls. induction fuel as [|f IH]; intros dls u pending input; [exact I|].
+  cbn [uci_exec].
+  destruct (match pending with Some l => Some (l, input) | None => match input with [] => None | (_, l) :: r => Some (l, r) end end) as [[l input']|]; [|exact I].
+  pose proof (C17_inspecting_commands_keep_position_and_history extra (List.hd O dls) u l input') as K.
+  destruct (uci_step extra (List.hd O dls) u l input') as [[[[u' outs] rq] input''] st].
+  destruct st; [|exact I|exact I].
+  pose proof (uci_exec_head extra (List.tl dls) f u' rq input'') as HD. specialize (IH (List.tl dls) u' rq input'').
+  cbn [frame_chain]. destruct (uci_exec extra (List.tl dls) f u' rq input'') as [|[u2 l2] r]; [exact I|].
+  subst u2. split; [|exact IH].
+  intros CG. unfold changes_game in CG. cbv zeta in CG.
+  apply orb_false_elim in CG. destruct CG as (CG & C4). apply orb_false_elim in CG. destruct CG as (CG & C3). apply orb_false_elim in CG. destruct CG as (C1 & C2).
+  apply K; intros E; rewrite E in *; discriminate.
+Qed.
+
 Print Assumptions C17_search_frame.
+Print Assumptions C17_whole_sessions_change_the_game_only_at_the_four_commands.
 Print Assumptions C17_inspecting_commands_keep_position_and_history.
 Print Assumptions C17_move_command_plays_on.
 Print Assumptions C17_negamax_balanced.
